@@ -74,6 +74,8 @@ pub struct World {
     pub da_height: u64,
     /// max_gas of the last generated huge-fee transaction (flag F_HUGEFEE)
     pub huge_max_gas: Option<u64>,
+    /// reverting transactions spending only a retryable message (replayable but for their id)
+    pub retry_txs: Vec<Transaction>,
     /// non-mint transactions of the committed blocks, in their executed form
     pub executed: Vec<Transaction>,
     /// validate tampered variants of every produced block
@@ -216,6 +218,7 @@ impl World {
             height: 1,
             da_height: 0,
             huge_max_gas: None,
+            retry_txs: vec![],
             executed: vec![],
             tamper: false,
             dry: false,
@@ -418,7 +421,7 @@ impl World {
             let mut b = TransactionBuilder::script(vec![op::rvrt(RegId::ONE)].into_iter().collect(), vec![]);
             b.with_params(self.params.clone());
             b.script_gas_limit(10_000);
-            b.max_fee_limit(0);
+            b.max_fee_limit(km.msg.amount());
             b.add_unsigned_message_input(
                 self.wallets[km.wallet].0,
                 *km.msg.sender(),
@@ -428,6 +431,7 @@ impl World {
             );
             let tx: Transaction = b.finalize().into();
             self.txs.push(tx.clone());
+            self.retry_txs.push(tx.clone());
             return tx;
         }
         let kind = match rng.below(12) {
